@@ -11,8 +11,16 @@ package e2e
 
 import (
 	"bytes"
+	"compress/gzip"
+	"compress/zlib"
 	"context"
 	"encoding/json"
+	"io"
+	"strconv"
+
+	"github.com/klauspost/compress/zstd"
+	"github.com/pierrec/lz4/v4"
+
 	"errors"
 	"fmt"
 	"net"
@@ -578,6 +586,55 @@ func c15RunCase(w *c15World, senders []c15Sender, outcomes []c15Outcome, c c15Ca
 	return "", ""
 }
 
+// c15Compressed: a two-resource request of the signal, compressed with a flush between the two resources - so that some
+// strict prefix of the stream decodes (up to the missing end of stream) to a WELL-FORMED one-resource request. Only
+// self-delimiting formats are used (the end of the stream is marked, so every strict prefix is detectably malformed).
+func c15Compressed(alg, signal string) []byte {
+	var one, two []byte
+	if signal == "traces" {
+		td := ptrace.NewTraces()
+		td.ResourceSpans().AppendEmpty().ScopeSpans().AppendEmpty().Spans().AppendEmpty().SetName("x")
+		one, _ = (&ptrace.ProtoMarshaler{}).MarshalTraces(td)
+		td.ResourceSpans().AppendEmpty().ScopeSpans().AppendEmpty().Spans().AppendEmpty().SetName("second resource")
+		two, _ = (&ptrace.ProtoMarshaler{}).MarshalTraces(td)
+	} else {
+		ld := plog.NewLogs()
+		ld.ResourceLogs().AppendEmpty().ScopeLogs().AppendEmpty().LogRecords().AppendEmpty().Body().SetStr("x")
+		one, _ = (&plog.ProtoMarshaler{}).MarshalLogs(ld)
+		ld.ResourceLogs().AppendEmpty().ScopeLogs().AppendEmpty().LogRecords().AppendEmpty().Body().SetStr("second resource")
+		two, _ = (&plog.ProtoMarshaler{}).MarshalLogs(ld)
+	}
+	if !bytes.HasPrefix(two, one) {
+		panic("harness: the one-resource encoding is not a prefix of the two-resource one")
+	}
+	var buf bytes.Buffer
+	var wr interface {
+		io.WriteCloser
+		Flush() error
+	}
+	switch alg {
+	case "gzip":
+		wr = gzip.NewWriter(&buf)
+	case "zlib", "deflate":
+		wr = zlib.NewWriter(&buf)
+	case "zstd":
+		zw, _ := zstd.NewWriter(&buf, zstd.WithEncoderConcurrency(1))
+		wr = zw
+	case "lz4":
+		wr = lz4.NewWriter(&buf)
+	default:
+		panic("harness: " + alg)
+	}
+	_, _ = wr.Write(one)
+	_ = wr.Flush()
+	_, _ = wr.Write(two[len(one):])
+	_ = wr.Close()
+	return buf.Bytes()
+}
+
+// lz4 is not in the server's default decoder list
+var c15ServerHasLz4 = false
+
 func c15Raw(w *c15World, c c15Case) (string, string) {
 	w.cur, w.gotJSON = nil, nil
 	url := "http://" + w.haddr + "/v1/" + c.Signal
@@ -609,6 +666,12 @@ func c15Raw(w *c15World, c c15Case) (string, string) {
 		ce, body = "gzip", []byte{0x1f, 0x8b, 0x00, 0x01}
 	case "empty-request-protobuf":
 		body = []byte{}
+	default:
+		if f := strings.Split(c.Raw, ":"); f[0] == "truncated-stream" {
+			// truncated-stream:<alg>:<n> - the first n bytes of the compressed two-resource request
+			n, _ := strconv.Atoi(f[2])
+			ce, body = f[1], c15Compressed(f[1], c.Signal)[:n]
+		}
 	case "empty-request-json":
 		ct, body = "application/json", []byte(`{}`)
 	}
@@ -659,11 +722,15 @@ func c15Raw(w *c15World, c c15Case) (string, string) {
 		}
 		return "", ""
 	}
+	kind := c.Raw
+	if f := strings.Split(kind, ":"); f[0] == "truncated-stream" {
+		kind = f[0] + ":" + f[1]
+	}
 	if resp.StatusCode/100 != 4 {
-		return "malformed-not-client-error:" + c.Raw, fmt.Sprintf("%+v: status %d", c, resp.StatusCode)
+		return "malformed-not-client-error:" + kind, fmt.Sprintf("%+v: status %d", c, resp.StatusCode)
 	}
 	if len(w.gotJSON) != 0 {
-		return "malformed-reached-consumer:" + c.Raw, fmt.Sprintf("%+v", c)
+		return "malformed-reached-consumer:" + kind, fmt.Sprintf("%+v", c)
 	}
 	return "", ""
 }
@@ -766,6 +833,20 @@ func TestVerif(t *testing.T) {
 			for _, sig := range []string{"logs", "traces"} {
 				for _, o := range outcomes {
 					run(c15Case{Auth: auth, Signal: sig, Raw: "wire:" + o.Name})
+				}
+			}
+			// "every malformed request body": every strict, non-empty prefix of a compressed request, for every compression
+			// whose stream format marks its own end - a cut stream is malformed wherever the cut falls (also where the
+			// bytes decoded so far happen to be a well-formed shorter request)
+			for _, sig := range []string{"logs", "traces"} {
+				for _, alg := range []string{"gzip", "zlib", "deflate", "zstd", "lz4"} {
+					if alg == "lz4" && !c15ServerHasLz4 {
+						continue
+					}
+					full := len(c15Compressed(alg, sig))
+					for n := 1; n < full; n++ {
+						run(c15Case{Auth: auth, Signal: sig, Raw: fmt.Sprintf("truncated-stream:%s:%d", alg, n)})
+					}
 				}
 			}
 		}
